@@ -15,8 +15,8 @@ def run(tier):
     if tier == "quick":
         cfgs, beh = model_behaviours(c, tier, cfgsel=[2, 3, 5, 6, 8, 20, 24, 26])
     else:
-        cfgs, beh = model_behaviours(c, tier, cfgsel=[3, 5, 8], maxuses=3)
-        cfgs2, beh2 = model_behaviours(c, tier, cfgsel=[2, 6, 20, 24, 26], maxuses=2)
+        cfgs, beh = model_behaviours(c, tier, cfgsel=[2, 3, 5, 6, 8, 20, 24, 26], maxuses=3)
+        cfgs2, beh2 = [], []
         beh += beh2
     script = os.path.join(c.wd, "replay.ndjson")
     n = behaviours_script(cfgs, beh, script, select=lambda b: not b["valid"])
